@@ -302,6 +302,9 @@ func (w *world) build() error {
 			case <-ctx.Done():
 				t.Stop()
 				return nil, ctx.Err()
+			case <-simrt.Done():
+				t.Stop()
+				simrt.ExitShutdown()
 			}
 			simrt.Yield("sts:fetched")
 		}
@@ -562,7 +565,7 @@ func Run(s *simrt.Sim, a *harness.Args, r *harness.Result) {
 	s.Spawn("driver", nil, func() {
 		for i, m := range w.msgs {
 			if m.gap > 0 {
-				time.Sleep(m.gap)
+				simrt.Sleep(m.gap)
 				simrt.Yield("driver:gap")
 			}
 			w.deliver(i, m)
